@@ -126,12 +126,18 @@ func BuildNode(n Node) any {
 		return buildSlice(n)
 	case "mp":
 		m := map[string]int{}
+		mpv := map[string]*int{} // vp: the same map with POINTER values (compared by what they point to, never by address)
 		ks, _ := n["ks"].([]any)
 		vs, _ := n["vs"].([]any)
 		for i := range ks {
 			k := Detok(anyToks(ks[i]))
 			v, _ := strconv.Atoi(Detok(anyToks(vs[i])))
 			m[k] = v
+			pv := v
+			mpv[k] = &pv
+		}
+		if nBool(n, "vp") {
+			return mpv
 		}
 		return m
 	case "mpa":
